@@ -165,6 +165,7 @@ class BlockNode(Node):
 
         if not block_stack:
             # This base template is being rendered directly.
+            _validate_direct_render(context)
             if self.required:
                 raise RequiredBlockError(
                     f"block {self.name!r} must be overridden", token=self.token
@@ -218,6 +219,7 @@ class BlockNode(Node):
 
         if not block_stack:
             # This base template is being rendered directly.
+            _validate_direct_render(context)
             if self.required:
                 raise RequiredBlockError(
                     f"block {self.name!r} must be overridden", token=self.token
@@ -536,6 +538,17 @@ def _stack_blocks(
             template_name=template_name,
         )
 
+    _raise_for_duplicate_blocks(blocks)
+    _store_blocks(context, blocks, template_name)
+
+    if not extends:
+        return None, blocks
+    # return extends[0].name.evaluate(context), blocks
+    return extends[0], blocks
+
+
+def _raise_for_duplicate_blocks(blocks: list[BlockNode]) -> None:
+    """Raise if two blocks of one template share a name."""
     seen_block_names: set[str] = set()
     for block in blocks:
         if block.name in seen_block_names:
@@ -545,12 +558,20 @@ def _stack_blocks(
             )
         seen_block_names.add(block.name)
 
-    _store_blocks(context, blocks, template_name)
 
-    if not extends:
-        return None, blocks
-    # return extends[0].name.evaluate(context), blocks
-    return extends[0], blocks
+def _validate_direct_render(context: RenderContext) -> None:
+    """Check block names of a template that is rendered without `extends`.
+
+    Block names must be unique to a template whether or not it is extended.
+    Templates in an inheritance chain are checked when their blocks are stacked.
+    """
+    validated: set[int] = context.tag_namespace.setdefault(
+        "extends_validated", set()
+    )
+    if id(context.template) not in validated:
+        _, blocks = _find_inheritance_nodes(context.template, context)
+        _raise_for_duplicate_blocks(blocks)
+        validated.add(id(context.template))
 
 
 def _store_blocks(
